@@ -908,6 +908,13 @@ pub fn cloud_layout(s: &mut Src, c: &Cloud) -> CloudLayout {
 /// Why a prototype breaks the writer's documented rules (None = follows them).
 /// `registered`: extension prefixes registered with the writer.
 pub fn rule_violation(p: &[Rec], registered: &[String]) -> Option<String> {
+    // a prototype is a structure: its children are addressed by name, two records of one name cannot be told apart
+    let mut seen = std::collections::HashSet::with_capacity(p.len());
+    for a in p {
+        if !seen.insert((a.prefix.as_deref(), a.name.as_str())) {
+            return Some(format!("record {} listed twice", a.name));
+        }
+    }
     let has = |n: &str| p.iter().any(|r| r.prefix.is_none() && r.name == n);
     let get = |n: &str| p.iter().find(|r| r.prefix.is_none() && r.name == n);
     let count = |ns: [&str; 3]| ns.iter().filter(|n| has(n)).count();
